@@ -91,8 +91,9 @@ def main():
     out.append('marks changes the checks did not catch at first; the note says what was added to the engine')
     out.append('(generator or oracle, never a special case for the change), after which the change was')
     rows = seeded_rows()
-    missed = [r.split('|')[1].strip() for r in rows if 'MISSED |' in r or ': MISSED' in r.split('|')[4]]
-    out.append('caught. %d of %d are caught by the quick tier now%s.' % (len(rows) - len(missed), len(rows), (' (not caught: ' + ', '.join(missed) + ', see its note)') if missed else ''))
+    missed = [r.split('|')[1].strip() for r in rows if ': MISSED' in r.split('|')[4] and ': caught' not in r.split('|')[4]]
+    other = [r.split('|')[1].strip() for r in rows if ': MISSED' in r.split('|')[4] and ': caught' in r.split('|')[4]]
+    out.append('caught. %d of %d are caught by the quick tier now%s.' % (len(rows) - len(missed), len(rows), ((' (not caught: ' + ', '.join(missed) + ', see their notes') + ((';  caught by the check of a neighbouring property only: ' + ', '.join(other)) if other else '') + ')') if missed or other else ''))
     out.append('')
     out.append('| id | file | change (from the seeder\'s notes) | quick check verdict (oracles) | strengthening |')
     out.append('|---|---|---|---|---|')
